@@ -2,11 +2,14 @@
 not_applicable = {}
 
 claimed["C10"] = (
-    "Bounded symbolic verification of the decoder kernel: every byte string of length 0..5 (quick) / 0..8 (thorough) over the FULL byte alphabet is fed "
-    "symbolically to the real Parser.Add/parseHeader; every implicit Go panic condition (slice/index bounds, nil) on every feasible path is a solver query, "
-    "so 'no first frame of that length can make the decoder panic' is decided for all 2^(8L) inputs rather than sampled. JSON is an opaque stub (may fail, may "
-    "return 0..2 strings), so the claim is about the repo's own header slicing, not encoding/json.",
-    "Outside the claim: frames longer than the bound, panics inside encoding/json, the reflect-based placeholder walk unless listed in the evidence harness list.",
+    "Bounded symbolic verification of the decoder kernel against peer-controlled input: (1) every byte string of length 0..5 (quick) / 0..8 (thorough) over the FULL byte alphabet fed symbolically to the real "
+    "Parser.Add/parseHeader: every implicit Go panic condition (slice/index bounds, nil, makeslice) on every feasible path is a solver query, so 'no first frame of that length can make the decoder panic' is decided "
+    "for all 2^(8L) inputs rather than sampled; (2) binary headers whose attachment count is any 1..3 symbolic digits or one of 20 boundary counts up to 10^20 (both sides of 2^31, 2^32, 2^47/24, 2^63, 2^64): no "
+    "panic, and an accepted header leaves the decoder expecting a positive, limit-respecting number of attachments (never wedged on a negative count); (3) placeholder arithmetic with the number ANY int "
+    "(typed Binary path, real reconstructBinaryValue) and ANY float64 incl. NaN/Inf/2^63 (untyped map[string]any path, real reconstructMap with both key orders, through the executor's reflect model): never a "
+    "panic; a placeholder is resolved only if it designates an attachment and then to exactly that attachment, otherwise an error. JSON is an opaque stub (may fail, may return 0..2 strings / any number).",
+    "Outside the claim: frames longer than the bound, panics inside encoding/json itself, the struct / slice branches of the reflect walk (Field, Index, Set need reflect's addressability model), the routing of decode "
+    "errors to error handlers / connection close (C05's routing harness covers 'invalid packets close the connection').",
     "5 (C10)")
 
 claimed["C11"] = (
@@ -19,11 +22,13 @@ claimed["C11"] = (
     "5 (C11)")
 
 claimed["C13"] = (
-    "Bounded symbolic verification of the size-limit kernels. Client batcher: 2..4 (quick) / 2..6 (thorough) packets whose sizes are symbolic over [0,2^40], binary flags symbolic, "
-    "maxPayload symbolic over [1,2^44]; asserts the batches concatenate to the input (no drop/dup/reorder), no batch is empty and every multi-packet batch's encoded size "
-    "(computed by the real EncodedPayloadsLen) is <= maxPayload - i.e. the property's 'every vector of up to 6 sizes x every maxPayload' as one query family instead of an enumeration. "
-    "WebTransport: declared frame length vs. limit for arbitrary headers (see C11).",
-    "Outside the claim: real HTTP/WebSocket I/O, gzip expansion, JSONP bodies; transports whose limit kernel is not listed in the evidence harness list.",
+    "Bounded symbolic verification of the four size-limit kernels. (1) Client batcher: 2..4 (quick) / 2..6 (thorough) packets whose sizes are symbolic over [0,2^40], binary flags symbolic, maxPayload symbolic over "
+    "[1,2^44]: the batches concatenate to the input (no drop/dup/reorder), no batch is empty, every multi-packet batch's encoded size (real EncodedPayloadsLen) is <= maxPayload - the property's 'every vector of up "
+    "to 6 sizes x every maxPayload' as one query family instead of an enumeration. (2) Long-polling POST: body of 0..12 bytes against a limit M symbolic in [0,8], size declared in Content-Length or NOT declared "
+    "(chunked): above the limit never delivered, transport closed, at most M+1 bytes taken from the body; within it accepted intact. (3) WebSocket read limits with the library stubbed to its one relevant state (read "
+    "limit, default read from the module source): server limit == MaxBufferSize, unlimited when disabled; client admits every message within the announced maxPayload (fresh connection and upgrade); natively the same "
+    "sizes go through a real loop-back WebSocket pair of the two transports. (4) WebTransport: declared frame length vs. limit for arbitrary 9-byte headers (see C11).",
+    "Outside the claim: real HTTP I/O, gzip expansion, JSONP form bodies, polling bodies longer than 12 bytes (the limit logic is size-relative), the nhooyr library's own enforcement of the limit it is given.",
     "5 (C13)")
 
 claimed["C18"] = (
@@ -65,11 +70,14 @@ claimed["C09"] = (
     "5 (C09)")
 
 claimed["C15"] = (
-    "Bounded symbolic verification of the back-off calculator in SMT floating point: min, max (0 < min <= max <= 2^53 ns), jitter (any float32, incl. NaN/Inf/negative) and the random draw r in [0,1) are symbolic; "
-    "the attempt number is concretised (quick: 0,1,31,62,63,64 - one per regime: exact, int64 wrap of min*2^k, float->int overflow at 2^63; thorough: every 0..70). Asserts 0 < delay <= max, first delay == min "
-    "without jitter, attempt accounting, and (all (min,max), k <= 40, no overflow) delays do not decrease without jitter. FP queries are decided by fresh z3 processes (non-incremental strategies), with cvc5 / z3 5.1 as fall-back.",
-    "Outside the claim: max above 2^53 ns (float64(max) may round up past max), attempt numbers above 70, real timers and outages; the reconnect state machine and offline buffer unless their harnesses are listed in the evidence. "
-    "math.Pow is evaluated natively on concrete operands (base 2, integral exponent); float->int conversion follows amd64.",
+    "Bounded symbolic verification of the three reconnection kernels. (1) Back-off calculator in SMT floating point: min, max (0 < min <= max <= 2^53 ns), jitter (any float32, incl. NaN/Inf/negative) and the random "
+    "draw r in [0,1) symbolic; attempt number concretised (quick: 0,31,62,63 - one per regime: exact, int64 wrap of min*2^k, float->int overflow at 2^63; thorough: every 0..70): 0 < delay <= max, first delay == min "
+    "without jitter, attempt accounting; (all (min,max), k <= 40, no overflow) delays do not decrease without jitter. FP queries are decided by fresh z3 processes, cvc5 / z3 5.1 as fall-back. (2) Reconnect state "
+    "machine (real Manager.reconnect/connect/onReconnect with the network dial cut) for every attempt limit N in 0..4 and every outage length j in 0..5: dials exactly min(j+1,N) times, reconnect_failed exactly once "
+    "after N failures (disconnected, back-off reset, no reconnect), reconnect exactly once with the successful attempt's number otherwise, attempts numbered 1,2,3.. . (3) Offline buffer: 1..3/4 emits while "
+    "disconnected with symbolic volatile flags and 1..2 frames each, then emitBuffered twice: exactly the non-volatile emits' frames, in order, once; volatile dropped; second flush sends nothing.",
+    "Outside the claim: max above 2^53 ns (float64(max) may round up past max), attempt numbers above 70, real timers / outages / black-holed dials, the retry queue (clientPacketQueue), ack-carrying offline emits "
+    "(C03 covers their timeout). math.Pow is evaluated natively on concrete operands; float->int conversion follows amd64. One jitter-bound assertion (delay <= 2*min at attempt 0) stayed unknown on all three solvers at 60 s and is not claimed.",
     "5 (C15)")
 
 claimed["C19"] = (
@@ -168,8 +176,9 @@ claimed["C07"] = (
     "order kept, later sends use the new transport; (2) server candidate handling through the real maybeUpgrade (entered on its WebTransport branch so the candidate can be a recording transport) with a symbolic "
     "scenario - probe PING then UPGRADE / any other packet type / candidate closes / silence until the upgrade timer fires (virtual clock): pong 'probe' on the candidate, UPGRADE completes the swap; every failure "
     "closes ONLY the candidate, the socket stays open on its original transport and keeps sending there; (3) client: the real tryUpgradeTo/finishUpgradeTo with the candidate answering pong 'probe' / another pong / "
-    "another packet / nothing: UPGRADE is the first packet on the new transport, old transport discarded once, later messages on the new one; failures and the timeout leave the original transport in place, the socket open and working.",
-    "Outside the claim: the WebSocket/WebTransport handshakes, the real probe exchange, in-flight HTTP responses, reordering BETWEEN the two physical transports during the swap window, binary/text mix, client-side sends racing finishUpgradeTo.",
+    "another packet / nothing: UPGRADE is the first packet on the new transport, old transport discarded once, later messages on the new one; failures and the timeout leave the original transport in place, the socket open and working; "
+    "(4) client swap race: a Send from another goroutine racing the real finishUpgradeTo under all interleavings: sent exactly once and never ahead of UPGRADE on the new transport.",
+    "Outside the claim: the WebSocket/WebTransport handshakes, the real probe exchange, in-flight HTTP responses, reordering BETWEEN the two physical transports during the swap window, binary/text mix.",
     "5 (C07)")
 
 claimed["C01"] = (
